@@ -705,8 +705,8 @@ def stabilizer_projection_trace(gs_stb, ps_stb, gs_obs, ps_obs, r):
             gs_stb[p2] = (gs_stb[p2] + gs_stb[p])%2
         temp_acqs = torch.logical_and(torch.logical_and(acqs,  ~update), ~(indices<N+r))
         temp_acqs = torch.roll(temp_acqs, shifts=(-N), dims=(0))
-        ga = torch.cumsum(temp_acqs.unsqueeze(-1)*torch.cat((ps_stb, ps_stb)).unsqueeze(0), dim=-1) % 2
-        pa = torch.sum(torch.cat((ps_stb, ps_stb))*temp_acqs + ipow(ga, ga), dim=0) % 4
+        # phase of the ordered product of the stabilizers whose destabilizers anticommute with gs_obs[k]
+        pa = pauli_combine(temp_acqs[0:N].to(gs_stb.dtype).unsqueeze(0), gs_stb[0:N], ps_stb)[1][0] % 4
         if torch.any(update):
             q = (p+N)%(2*N)
             gs_stb[q] = gs_stb[p]
